@@ -7,7 +7,8 @@ from common import *
 ID = 'C18'
 COQ_FILES = ['Base/Mat.v', 'Base/SumQ.v', 'Base/ListX.v', 'Model/Walks.v', 'Model/Linear.v', 'Proofs/Walks.v', 'Proofs/WalksBound.v',
              'Proofs/Linear.v', 'Proofs/LinearSpectral.v', 'Proofs/LinearFull.v', 'Proofs/LinearMarkov.v', 'Proofs/LinearDim.v',
-             'Proofs/LinearExist.v', 'Proofs/LinearSelect.v', 'Proofs/LinearRun.v', 'Proofs/LinearReal.v', 'Properties/C18.v']
+             'Proofs/LinearExist.v', 'Proofs/LinearSelect.v', 'Proofs/LinearRun.v', 'Proofs/LinearReal.v',
+             'Proofs/LinearSpectralFull.v', 'Proofs/LinearSpectralReal.v', 'Properties/C18.v']
 THEOREMS = ['C18_findwalks_power', 'C18_walks_enumeration', 'C18_findwalks_rejects', 'C18_findwalks_exact_range',
             'C18_transP_stochastic', 'C18_mfpt_equation', 'C18_stationary_positive_unique', 'C18_mfpt_connected',
             'C18_mfpt_select_spec', 'C18_diffusion_eff_def', 'C18_pagerank_equation', 'C18_pagerank_positive',
@@ -15,7 +16,7 @@ THEOREMS = ['C18_findwalks_power', 'C18_walks_enumeration', 'C18_findwalks_rejec
             'C18_run_pagerank_sound', 'C18_run_mfpt_sound',
             'C18_subgraph_poly', 'C18_subgraph_from_decomposition',
             'C18_subgraph_truncated_exp', 'C18_subgraph_expm', 'C18_expm_defined', 'C18_subgraph_expm_rational',
-            'C18_eigvec_abs_ok_partial']
+            'C18_eigvec_abs_ok', 'C18_eigvec_old_statement_refuted', 'C18_eigvec_abs_ok_real']
 RULE = ('families: cycles C3..C9, paths, stars, complete graphs, complete bipartite K_{a,b}, circulant / cube / Petersen regular '
         'graphs, disjoint copies of those (repeated eigenvalues; spectral measures and findwalks only), random connected '
         'undirected graphs with integer weights 1..4, random strongly connected digraphs (directed cycle + chords, weights '
@@ -27,7 +28,16 @@ RULE = ('families: cycles C3..C9, paths, stars, complete graphs, complete bipart
         'additionally on networks with SELF-CONNECTIONS (random positive diagonal entries, lazy walks): hitting-time oracle and '
         'ediff = 1/mfpt for the same matrix. pagerank additionally: random digraphs with '
         'EMPTY COLUMNS (dangling nodes; oracle = the dangling-redistribution equation), priors with zero entries, integer '
-        'input arrays, d = 0. mean_first_passage_time additionally: the eigenpair-selection branch (ok / ambiguous truth '
+        'input arrays, d = 0, and priors that ALIAS the network (falff = A[k] / A[:, k], views of the float64 matrix argument, and independent '
+        'float64 vectors): the equation is judged against PRISTINE COPIES of both arguments taken before the call, and both arguments must '
+        'come back unchanged (pagerank_centrality:arguments-unchanged). Spectral measures additionally: graphs that are NOT connected but '
+        'have a simple largest eigenvalue with node 0 OUTSIDE the dominant component (isolated node / smaller components first, several '
+        'numberings of each, binary and weighted) for the eigenvector clauses, and for subgraph_centrality DENSE MODULES WITH A PERIPHERY - '
+        'lambda_max in (37, 46.5): K_39..K_46 or G(n, p) with mean degree 39..45, next to isolated nodes, small components (C3, C4, C5, K2, P3, '
+        'K_{1,3}) or a path tail of 2..12 nodes - judged PER NODE relative to the node\'s own value expm(A)[i,i] >= 1 (1e-8; 1e-4 for the '
+        'connected tails, where the eigen-sum itself is only accurate to ~5e-7 relative; lambda_max is kept below 46.5 because beyond ~60 the '
+        'unchanged routine loses the small entries to rounding, see ASSUMES); three such graphs in the quick tier, ~33 in thorough. '
+        'mean_first_passage_time additionally: the eigenpair-selection branch (ok / ambiguous truth '
         'value / tolerance) predicted by the extracted model from aux = |eig - 1| on connected AND on disconnected / '
         'reducible inputs. Every defining equation is evaluated on the implementation output in binary64 with relative '
         'tolerance 1e-8; findwalks is compared EXACTLY with numpy.linalg.matrix_power / Python-int powers and with the '
@@ -43,8 +53,10 @@ ASSUMES = ['LAPACK results (eig, inv, solve, eigh) enter the theorems only throu
            'findwalks: the model counts in Z, the code in a float64 array; they coincide while twalk < 2^53 '
            '(C18_findwalks_exact_range gives the sufficient condition n^2 (1 + D + .. + D^(n-1)) < 2^53, D = largest in-degree); '
            'beyond that the code returns rounded counts (known finding findwalks:exact53, K_15 / K_16 are the first complete graphs)',
-           'C18_eigvec_abs_ok_partial assumes the variational (Rayleigh) characterisation of the largest eigenvalue '
-           '(full statement = Definition C18_eigvec_full_statement in Properties/C18.v); subgraph centrality is FULL: C18_subgraph_expm '
+           'C18_eigvec_abs_ok / C18_eigvec_abs_ok_real assume of LAPACK\'s output (lam, u) exactly the specification of the call: A u = lam u and '
+           'lam = the top of the Rayleigh quotient of the symmetric matrix (forall x, x^T A x <= lam x^T x: what "largest eigenvalue" / argmax(vals) '
+           'means); that only eigenvectors attain the bound is now PROVED; the earlier Definition C18_eigvec_full_statement (largest among the '
+           'eigenvalues with rational eigenvectors) is refuted over Q (C18_eigvec_old_statement_refuted); subgraph centrality is FULL: C18_subgraph_expm '
            '(the diagonal of the matrix exponential, defined as the entrywise sum of the series, equals sum_k V_ik^2 exp(lam_k) for all real '
            'A, V, lam meeting eigh\'s equations) - eigh, np.exp and binary64 remain outside the model',
            'C18_diffusion_eff_def is a definitional unfolding of the two lines of the code (no assurance beyond the correspondence run)',
@@ -54,13 +66,19 @@ ASSUMES = ['LAPACK results (eig, inv, solve, eigh) enter the theorems only throu
            'mean_first_passage_time on a disconnected / reducible input is outside the property; observed there: ValueError '
            '"truth value of an array ... is ambiguous" (two bit-equal eigenvalues 1) instead of the intended message, or inf/nan output; '
            'recorded as a robustness note, only the selection branch is compared with the model',
+           'subgraph_centrality is judged per node (relative to expm(A)[i,i]) only for lambda_max < 46.5: the routine sums v_ik^2 exp(lambda_k) in '
+           'binary64, so a rounding residue ~1e-16 in the leading eigenvector\'s entry at a node it does not reach is multiplied by exp(lambda_max); '
+           'observed on the unchanged tree: G(87, 0.9) + one isolated node (lambda_max = 78) gives 140 for the isolated node instead of 1, G(83, 0.93) + 8-node '
+           'sparse part 59 % off; relative to max_i expm(A)[i,i] (the tolerance of the general clause) these are < 1e-30. Recorded as a robustness note '
+           '(binary64 limit of the eigen-sum, like findwalks:exact53), not counted as a violation',
            'findwalks on a 1-node graph raises IndexError (Wq has no slice for length 1); the model returns None there; not counted as a violation']
 TRUSTED = ['floating-point residual checks with tolerance 1e-8 * scale on the implementation output (numerical evidence, not proof)',
            'scipy.linalg.expm and numpy.linalg.matrix_power / solve / eig (re-run by the harness to obtain aux) as independent numerical oracles',
            'C18_subgraph_expm, C18_expm_defined, C18_subgraph_expm_rational and the second conjunct of C18_subgraph_truncated_exp are statements over '
            'Coq\'s real numbers (Proofs/LinearReal.v, standard library Reals only) and depend on its axioms '
            'ClassicalDedekindReals.sig_forall_dec, ClassicalDedekindReals.sig_not_dec, '
-           'FunctionalExtensionality.functional_extensionality_dep; every other C18 theorem is closed under the global context']
+           'FunctionalExtensionality.functional_extensionality_dep; so does C18_eigvec_abs_ok_real (Proofs/LinearSpectralReal.v; sig_forall_dec and '
+           'functional_extensionality_dep only); every other C18 theorem is closed under the global context']
 TOL = 1e-8
 
 
@@ -171,6 +189,70 @@ def copies():
     return [('copies', disjoint(cycle(3), cycle(3))), ('copies', disjoint(cycle(4), cycle(4))), ('copies', disjoint(kab(2, 2), kab(2, 2))),
             ('copies', disjoint(complete(3), disjoint(complete(3), complete(3)))), ('copies', disjoint(cycle(5), path(3))),
             ('copies', disjoint(kab(1, 3), kab(1, 3))), ('copies', disjoint(petersen(), complete(2)))]
+
+
+def renumbered(r, blocks, first):
+    """disjoint union of the blocks, nodes renumbered at random with node 0 taken from block number `first`"""
+    A = blocks[0]
+    for B in blocks[1:]:
+        A = disjoint(A, B)
+    n = len(A); off = sum(len(B) for B in blocks[:first])
+    z = off + int(r.randint(0, len(blocks[first])))
+    rest = [i for i in r.permutation(n) if i != z]
+    p = np.array([z] + rest)
+    return A[np.ix_(p, p)]
+
+
+def dominant_not_first(r, thorough):
+    """undirected graphs that are NOT connected but have a simple largest eigenvalue (one dominant component + isolated nodes / smaller
+    components), numbered so that node 0 lies OUTSIDE the dominant component; several numberings of each"""
+    iso = np.zeros((1, 1), dtype=int)
+    base = [[iso, complete(3)], [iso, kab(1, 3)], [complete(2), complete(4)], [path(3), cycle(5)], [complete(2), petersen()], [iso, iso, star(5)],
+            [cycle(3), complete(5)], [iso, cycle(4), kab(2, 3)], [path(2), path(5)], [iso, cube()]]
+    out = [('dominant_not_first', disjoint(iso, complete(3))), ('dominant_not_first', disjoint(complete(2), disjoint(iso, complete(4))))]
+    for bl in base:
+        for _ in range(3 if thorough else 2):
+            out.append(('dominant_not_first', renumbered(r, bl, int(r.randint(0, len(bl) - 1)))))
+    for t in range(30 if thorough else 6):
+        big = rand_conn_und(r, int(r.randint(4, 8)), 1)
+        small = [iso] * int(r.randint(0, 3)) + [rand_conn_und(r, int(r.randint(2, 4)), 1) for _ in range(int(r.randint(0, 2)))] or [iso]
+        lam = [float(np.linalg.eigvalsh(B.astype(float)).max()) for B in small]
+        if float(np.linalg.eigvalsh(big.astype(float)).max()) < max(lam) + 0.2:
+            continue
+        out.append(('dominant_not_first', renumbered(r, small + [big], int(r.randint(0, len(small))))))
+    return out
+
+
+def dense_with_periphery(r, quick_slice):
+    """lambda_max between 37 and 46 (a dense module of >= 38 nodes) next to nodes the leading eigenvector does not reach: isolated nodes,
+    small further components, a sparse tail hanging off the module.  -> (family, A, relative tolerance per node)"""
+    iso = np.zeros((1, 1), dtype=int)
+
+    def tail(k, t):
+        A = disjoint(complete(k), np.zeros((t, t), dtype=int))
+        for i in range(t):
+            A[k - 1 + i, k + i] = A[k + i, k - 1 + i] = 1
+        return A
+
+    def dense(n, lam):
+        p = min(1.0, lam / (n - 1))
+        return (lambda X: X + X.T)(np.triu((r.rand(n, n) < p).astype(int), 1))
+    out = [('dense+isolated', renumbered(r, [iso, iso, complete(40)], 0), 1e-8)]
+    if quick_slice:
+        out += [('dense+components', renumbered(r, [cycle(3), complete(2), iso, complete(42)], int(r.randint(0, 3))), 1e-8),
+                ('dense+tail', tail(41, 6), 1e-4)]
+        return out
+    for t in range(24):
+        small = [iso] * int(r.randint(0, 4)) + [[cycle(3), cycle(4), complete(2), path(3), kab(1, 3), cycle(5)][int(r.randint(0, 6))] for _ in range(int(r.randint(0, 4)))] or [iso]
+        big = complete(int(r.randint(39, 47))) if t % 3 == 0 else dense(int(r.randint(44, 64)), float(r.uniform(39.0, 45.0)))
+        A = renumbered(r, small + [big], int(r.randint(0, len(small) + 1)))
+        if 37.0 < float(np.linalg.eigvalsh(A.astype(float)).max()) < 46.5:
+            out.append(('dense+components', A, 1e-8))
+    for t in range(8):
+        A = tail(int(r.randint(38, 44)), int(r.randint(2, 13)))
+        p = r.permutation(len(A))
+        out.append(('dense+tail', A[np.ix_(p, p)], 1e-4))
+    return out
 
 
 def hitting_oracle(P):
@@ -503,6 +585,39 @@ def run(ctx):
             except Exception as e:
                 ctx.fail('pagerank_centrality:raises', 'raised %r' % (e,), case); continue
             pagerank_oracle(A, d, prior, pr, case)
+    # the prior is a VIEW OF THE NETWORK ITSELF (personalised PageRank restarting at the neighbours of node k: falff=A[k], A[:, k]) or an
+    # independent float64 vector: the equation is judged for the matrix and prior that were handed in (PRISTINE COPIES taken before the
+    # call), and both arguments must hold what they held (a routine that normalises the prior in place rescales row k of A before A D^-1
+    # is formed).  Arguments exactly as passed: the representation layer would separate the two buffers
+    al_graphs = [(f, A) for f, A in pr_graphs[::max(1, len(pr_graphs) // ctx.scale(14, 60))]]
+    for t in range(ctx.scale(6, 40)):
+        al_graphs.append(('dangling', rand_dangling(r, int(r.randint(3, 8)))))
+    al_graphs += [('random_dir_strong*3/8', rand_strong_dir(r, 6, 3) * 0.375), ('cycle', cycle(5))]
+    for fam, A in al_graphs:
+        n = len(A); A0 = np.array(A, dtype=float)
+        rows = [k for k in range(n) if A0[k].sum() > 0]; cols = [k for k in range(n) if A0[:, k].sum() > 0]
+        modes = ([('row', int(r.choice(rows)))] if rows else []) + ([('column', int(r.choice(cols)))] if cols else []) + [('independent', int(r.randint(0, n)))]
+        for how, k in modes:
+            d = float(r.choice([0.3, 0.5, 0.85, 0.97]))
+            Aarg = A0.copy()
+            farg = Aarg[k] if how == 'row' else Aarg[:, k] if how == 'column' else r.randint(1, 6, n).astype(float)
+            f0 = farg.copy()
+            case = {'fn': 'pagerank_centrality', 'family': 'aliased-prior:' + fam, 'A': A0.tolist(), 'd': d, 'falff': f0.tolist(),
+                    'falff_is': {'row': 'A[%d] (a view of the matrix argument)' % k, 'column': 'A[:, %d] (a view of the matrix argument)' % k,
+                                 'independent': 'an independent float64 vector'}[how]}
+            reg(case, nontrivial=bool(A0.any())); ctx.count('pagerank:aliased-prior:' + how)
+            try:
+                with no_variants():
+                    import warnings
+                    with warnings.catch_warnings():
+                        warnings.simplefilter('ignore')
+                        pr = call(bct.pagerank_centrality, Aarg, d, falff=farg)
+            except Exception as e:
+                ctx.fail('pagerank_centrality:raises', 'raised %r' % (e,), case); continue
+            pagerank_oracle(A0, d, f0, pr, case)
+            ctx.check(np.array_equal(Aarg, A0) and np.array_equal(farg, f0), 'pagerank_centrality:arguments-unchanged',
+                      'the call changed its arguments (A changed: %s, falff changed: %s): the result belongs to another network / prior than the one passed'
+                      % (not np.array_equal(Aarg, A0), not np.array_equal(farg, f0)), case)
     # exact instances: the extracted model computes everything from (A, d, falff); dangling nodes, priors with zeros, int arrays
     ex_graphs = [(f, A) for f, A in pr_graphs if len(A) <= 7]
     for t in range(ctx.scale(40, 300)):
@@ -542,6 +657,14 @@ def run(ctx):
         n = int(r.randint(2, 10))
         B = rand_conn_und(r, n, 1) if t % 2 == 0 else ((lambda X: ((X + X.T) > 0).astype(int))(np.triu((r.rand(n, n) < 0.3).astype(int), 1)))
         sp.append(('random_und', B))
+    # not connected, simple largest eigenvalue, node 0 OUTSIDE the dominant component (its entry of the leading eigenvector is 0: an
+    # orientation rule that looks at one node decides nothing there), several numberings of each graph
+    sp += dominant_not_first(r, ctx.thorough)
+    # lambda_max > 36: exp(lambda_k) of the eigenpairs that carry a peripheral node's centrality is below eps * exp(lambda_max), yet they are
+    # ALL of that node's centrality (isolated node: exp(0) = 1); judged per node, relative to the node's own value
+    periph = dense_with_periphery(r, not ctx.thorough)
+    rel_tol = {id(A): tol for _, A, tol in periph}
+    sp += [(f, A) for f, A, _ in periph]
     for fam, A in sp:
         n = len(A); Af = (A != 0).astype(float)
         case = {'fn': 'subgraph_centrality', 'family': fam, 'A': A.tolist()}
@@ -551,12 +674,20 @@ def run(ctx):
             want = np.diag(scipy.linalg.expm(Af))
             ctx.check(Cs.shape == (n,) and np.abs(Cs - want).max() <= TOL * max(1.0, np.abs(want).max()), 'subgraph_centrality:expm',
                       'differs from diag(expm(A)) by %.3g' % (np.abs(Cs - want).max() if Cs.shape == (n,) else -1), case)
+            if id(A) in rel_tol and Cs.shape == (n,):
+                # expm of a disjoint union is the union of the expm's; every diagonal entry of expm(A) is >= 1 (closed walks of length 0)
+                err = np.abs(Cs - want) / want; i = int(np.argmax(err))
+                ctx.check(err[i] <= rel_tol[id(A)], 'subgraph_centrality:expm',
+                          'node %d: %.6g returned, expm(A)[%d,%d] = %.6g (%d of %d nodes off by more than %g relative to their own value; lambda_max = %.2f)'
+                          % (i, Cs[i], i, i, want[i], int((err > rel_tol[id(A)]).sum()), n, rel_tol[id(A)], float(np.linalg.eigvalsh(Af).max())), case)
         except Exception as e:
             ctx.fail('subgraph_centrality:raises', 'raised %r' % (e,), case)
+        if id(A) in rel_tol:
+            continue        # the eigenvector clauses below run LAPACK's non-symmetric solver: not on the 40..70-node dense graphs
         case = {'fn': 'eigenvector_centrality_und', 'family': fam, 'A': A.tolist()}
         reg(case, nontrivial=bool(np.any(A)))
         variants = [Af]
-        if fam == 'random_und':
+        if fam in ('random_und', 'dominant_not_first'):
             variants.append(Af * r.randint(1, 5, (n, n)))        # weighted; symmetrised from the upper triangle below
         for Aw in variants:
             Aw = np.triu(Aw, 1); Aw = Aw + Aw.T
